@@ -18,12 +18,14 @@ def oracle(case) -> Info:
     prelude = case[3] if len(case) > 3 else "none"
     run_prelude(prelude)
     body, exp = C.aidon_body(elements)
+    C.scribble(guarded(aidon.decode_notification_body, body, what="aidon.decode_notification_body"))  # a first result, modified by the caller
     d_body = guarded(aidon.decode_notification_body, body, what="aidon.decode_notification_body")
     m = C.dict_mismatch(d_body, exp)
     if m:
         fail(f"decode_notification_body ({layout}): {m}; body {body.hex()[:600]}", sig="body:" + m.split(":")[0][:40])
     apdu_dt, tagged = (None, False) if apdu is None else (tuple(apdu[0]), apdu[1])
     frame = C.llc_apdu(body, apdu_dt, tagged)
+    C.scribble(guarded(aidon.decode_frame_content, frame, what="aidon.decode_frame_content"))
     d_frame = guarded(aidon.decode_frame_content, frame, what="aidon.decode_frame_content")
     m = C.dict_mismatch(d_frame, exp)
     if m:
@@ -61,6 +63,7 @@ def build() -> Check:
             "correctly rounded double; texts verbatim; clock field-wise), exact key set, manufacturer 'Aidon', frame == body. Non-trivial "
             "= a register at a type boundary or negative, or a scaler outside {-1,0,1}. Distinct = case hash."
         ),
-        assumptions=["Field names from vlib/names.py; expected values computed with fractions.Fraction; scaler exponents kept within -6..6 so the scaled value is exactly representable in Decimal and the correctly rounded double is well defined."],
+        assumptions=[
+            "Every payload is decoded twice; the caller modifies the first returned dictionary before the second call (results must not be shared objects).","Field names from vlib/names.py; expected values computed with fractions.Fraction; scaler exponents kept within -6..6 so the scaled value is exactly representable in Decimal and the correctly rounded double is well defined."],
         clauses=[HypClause("lists", case_st, oracle, quick=6000, thorough=300000)],
     )
